@@ -149,10 +149,20 @@ impl Ord for Number {
         if self.value < other.value {
             Ordering::Less
         } else if self.value == other.value {
-            // Same magnitude: order by unit, so that `Equal` means `==`
-            self.unit
-                .map(|unit| unit.symbol())
-                .cmp(&other.unit.map(|unit| unit.symbol()))
+            // Same magnitude: order by unit, so that `Equal` means `==`.
+            // The symbol comes first; the other fields tell apart units that are
+            // not from the database and happen to share a symbol.
+            let key = |unit: &'static Unit| {
+                (
+                    unit.symbol(),
+                    &unit.ids,
+                    &unit.quantity,
+                    &unit.dimensions,
+                    unit.scale.to_bits(),
+                    unit.offset.to_bits(),
+                )
+            };
+            self.unit.map(key).cmp(&other.unit.map(key))
         } else {
             Ordering::Greater
         }
